@@ -15,6 +15,7 @@ every load restored the state of the loaded frame". The disconnect paths, SyncTe
 and spectator sessions are decided by the monitor on traces (their request lists are checked by
 the same clauses there).
 -/
+import GgrsModel.Model.Inventory
 import GgrsModel.Properties.C04
 import GgrsModel.Proofs.Monad
 import GgrsModel.Proofs.Queue
